@@ -111,7 +111,8 @@ SCENARIOS = {
 def header(scn):
     """What the trace spec needs to know about the scenario."""
     return dict(hosts=scn['hosts'], conts=scn['conts'], inst=scn['inst'], paths=scn['paths'],
-                data=scn['data'], kidx=list(range(1, 2 + len(scn['endpoints']))))
+                data=scn['data'], kidx=list(range(1, 2 + len(scn['endpoints']))),
+                allpaths=[p for a in scn['paths'] for p in scn['paths'][a]])
 
 
 # ---------------------------------------------------------------------------
